@@ -396,7 +396,7 @@ def run(chk):
         'decomposition routines (fs_diagonalize_hermitian, fs_svd, fs_diagonalize_symmetric) are represented by their '
         'documented contract (property C12); their outputs are fresh symbols constrained only by the ordering |w0| <= |w1|',
     ]
-    chk.not_covered += ['numerical accuracy of the decompositions (C12)', 'pole-mass copies (copy_DRbar_masses_to_pole_masses)']
+    chk.not_covered += ['numerical accuracy of the decompositions (C12)']
     c = setup(chk)
     matrices(chk, c)
     generations(chk, c)
@@ -404,3 +404,5 @@ def run(chk):
     from . import C04b
     C04b.run(chk, c)
     chk.absorb_executor(c.ex)
+    from . import C04c
+    C04c.run(chk)
